@@ -93,6 +93,7 @@ class Prog:
         self.tags = set()       # coverage tags "op/pers"
         self.pairs = []         # [push sink, pull sink]: must agree tick by tick (C22)
         self.mirror = []        # groups of source numbers that receive identical input
+        self.allow_short_circuit = False    # only the dedicated known-finding programs
         self.gaps = False       # histories: data in the first tick, empty ticks later
         self.note = ""
 
@@ -248,14 +249,45 @@ class Prog:
         # chain == union codegen: order only promised on the pull side -> treat as unordered
         return self._bin("chain", a, b, self.ty(a), False, (), ["0", "1"])
 
+    # Operators that do not pull an input to its end in every tick (cross_singleton: first `single`
+    # item only, nothing from `input` without one; defer_signal / _lattice_fold_batch: first signal;
+    # chain_first_n: take(n)) leave LAZY pull operators upstream half consumed.  If such an operator
+    # keeps state across ticks (unique::<'static>, enumerate/scan::<'static>, multiset_delta) its state
+    # misses the unpulled items and later ticks contradict the documented semantics -- the known
+    # finding dfirtick/shortcircuit_*.  Everywhere else the generator keeps that pattern out.
+    LAZY_CROSS_TICK = {"multiset_delta"}
+    LAZY_PASS = {"map", "filter", "flat_map", "filter_map", "flatten", "identity", "inspect", "union", "chain",
+                 "unique", "enumerate", "scan", "anti_join", "difference", "join_fused_lhs", "join_fused_rhs",
+                 "join_multiset_half", "chain_first_n", "cross_singleton"}
+
+    def short_circuit_hazard(self, s):
+        seen, todo = set(), [s[0]]
+        while todo:
+            x = todo.pop()
+            if x in seen:
+                continue
+            seen.add(x)
+            n = self.nodes[x - 1]
+            if n.op in self.LAZY_CROSS_TICK or (n.op in ("unique", "enumerate", "scan") and "static" in n.pers):
+                return True
+            if n.op in self.LAZY_PASS:
+                todo.extend(a for a, _ in n.ins)
+        return False
+
+    def guard_short_circuit(self, *ss):
+        if not self.allow_short_circuit and any(self.short_circuit_hazard(s) for s in ss):
+            raise GenError("lazy cross-tick state upstream of a short-circuiting input")
+
     def cross_singleton(self, inp, single, pers="tick"):
         self.need(inp, "i")
         self.need(single, "i")
+        self.guard_short_circuit(inp, single)
         if not self.od(single):
             raise GenError("cross_singleton single unordered")
         return self._bin("cross_singleton", inp, single, "p", self.od(inp), (pers,), ["input", "single"])
 
     def defer_signal(self, inp, sig):
+        self.guard_short_circuit(sig)
         return self._bin("defer_signal", inp, sig, self.ty(inp), self.od(inp), (), ["input", "signal"])
 
     def union(self, *ss):
@@ -304,6 +336,7 @@ class Prog:
     def chain_first_n(self, a, b, n):
         if self.ty(a) != self.ty(b) or not (self.od(a) and self.od(b)):
             raise GenError("chain_first_n")
+        self.guard_short_circuit(a, b)
         r = self._add("chain_first_n", [a, b], [self.ty(a)], [True], "chain_first_n(%d)" % n, k=n)
         self.nodes[-1].inports = ["0", "1"]
         return r
@@ -423,6 +456,7 @@ class Prog:
 
     def lattice_fold_batch(self, inp, sig):
         self.need(inp, "mx")
+        self.guard_short_circuit(sig)
         r = self._bin("lattice_fold_batch", inp, sig, "i", True, (), ["input", "signal"])
         self.nodes[-1].rust = "_lattice_fold_batch::<v::MaxU>()"
         self.tags.add("_lattice_fold_batch|-")
@@ -969,6 +1003,25 @@ def corpus():
         for op in ("resolve_futures", "resolve_futures_ordered", "resolve_futures_blocking", "resolve_futures_blocking_ordered"):
             p.sink(p.resolve_futures(s, op))
     add("resolve_futures_x", "C21", b)
+
+    # --- KNOWN FINDING dfirtick/shortcircuit_*: a lazily pulled operator with cross-tick state in
+    #     front of an input that is not pulled to its end.  Each program holds the hazardous shape and
+    #     the same pipeline with a handoff() in between (which drains the operator completely): the
+    #     first contradicts the model (C21), and the two contradict each other (C22, p.pairs).
+    def sc(name, mk):
+        def b(p):
+            p.allow_short_circuit = True
+            a, c = p.src(), p.src()
+            a2, c2 = p.src(), p.src()
+            p.sink(mk(p, a, p.unique(c, "static")))
+            p.sink(mk(p, a2, p.simple(p.unique(c2, "static"), "handoff")))
+            p.pairs.append([1, 2])
+            p.mirror.extend([[1, 3], [2, 4]])
+        add("shortcircuit_" + name, "C21", b)
+    sc("cross_singleton_single", lambda p, a, u: p.cross_singleton(a, u, "tick"))
+    sc("cross_singleton_input", lambda p, a, u: p.cross_singleton(u, a, "tick"))
+    sc("chain_first_n", lambda p, a, u: p.chain_first_n(u, a, 1))
+    sc("defer_signal", lambda p, a, u: p.defer_signal(a, u))
 
     # --- C24: ticks, defer_tick, defer_tick_lazy, run_available
     def b(p):
@@ -1885,6 +1938,11 @@ def rand_item(rng, ty):
 
 def history(rng, p, nsteps, avail_rate):
     H = []
+    # quadratic operators over persisted inputs: keep the histories short (TLC compares bags in O(n^2))
+    heavy = sum(1 for n in p.nodes if n.op in ("cross_join", "cross_join_multiset", "join", "join_multiset",
+                                               "join_multiset_half", "persist") and ("static" in n.pers))
+    if heavy >= 2:
+        nsteps = min(nsteps, 5)
     if p.gaps:
         nsteps = max(nsteps, 5)
     for i in range(nsteps):
@@ -1910,7 +1968,7 @@ def build_all(seed, tier):
     rng = random.Random(seed * 7919)
     hr = random.Random(seed * 104729 + (1 if tier == "thorough" else 0))
     NH = 6 if tier == "thorough" else 2
-    HL = (4, 10) if tier == "thorough" else (3, 7)
+    HL = (4, 8) if tier == "thorough" else (3, 7)
     progs = []      # entries: dict(id, name, prop, base, variant, prog, deco)
     hists = {}
 
@@ -1929,6 +1987,11 @@ def build_all(seed, tier):
     for p in base:
         pid = register(p)
         hists[pid] = [history(hr, p, hr.randrange(*HL), 0.3 if p.prop in ("C24", "C26") else 0.15) for _ in range(NH)]
+        if p.allow_short_circuit:
+            # the minimal witness first: two new items on the stateful side, one of them again later
+            T = lambda a, c: {"mode": "tick", "inputs": [a, c, list(a), list(c)]}
+            hists[pid] = [[T([1], [4, 5]), T([2], [5]), T([3], [5, 0]), T([4], [0])],
+                          [T([], [4, 5]), T([1], [5]), T([2], [4])]] + hists[pid][:1]
     for p in calibration():
         pid = register(p)
         hists[pid] = p.expect
@@ -1959,7 +2022,7 @@ def build_all(seed, tier):
         pid = register(p)
         hists[pid] = [history(hr, p, hr.randrange(*HL), 0.5) for _ in range(NH)]
     # C22: variants of hand-written and random bases, validated against the base's description
-    cands = [e for e in progs if e["prop"] == "C21" and not e["variant"]]
+    cands = [e for e in progs if e["prop"] == "C21" and not e["variant"] and not e["prog"].allow_short_circuit]
     rng.shuffle(cands)
     nvar = 0
     for e in cands:
